@@ -52,6 +52,12 @@ def run(res, proof):
         combos = list(itertools.product(allops, repeat=depth))
         if len(combos) > (600 if quick else 8000):
             combos = rng.sample(combos, 600 if quick else 8000)
+        # an object of one class alive while another class of the kind is asked twice (what lives in the first class must not
+        # steer, block or alias the second): every (op in class c0; op, op in class c1)
+        for c0 in (0, 1):
+            for c1 in (0, 1, 2, 3):
+                if c1 != c0:
+                    combos += [(a % c0, b % c1, c % c1) for a in ops for b in ops for c in ops]
         for combo in combos:
             hl = list(pre)
             ho = hist.run_checked(iw, hl, res, 'C15')
@@ -81,6 +87,34 @@ def run(res, proof):
         res.evaluations += 1
         lines += hl; impl += ho
     iw.reset()
+    # ---- 1b. two distinct subclasses with the SAME module and qualified name (a class factory called twice): own registries
+    from dsdobjects import base_classes as _bc, clear_singletons as _clear, SingletonError as _SE
+    for kind, Base in (('dom', _bc.DomainS), ('cplx', _bc.ComplexS), ('strand', _bc.StrandS)):
+        def factory():
+            return type('Twin', (Base,), {})
+        K1, K2 = factory(), factory()
+        _clear(_bc.DomainS)
+        da, db = _bc.DomainS('a', 5), _bc.DomainS('b', 5)
+        desc = {'scenario': 'two classes created by type("Twin", (%s,), {}) called twice' % Base.__name__}
+        res.evaluations += 1
+        try:
+            if kind == 'dom':
+                x = K1('t', 5); y = K2('t', 7)          # same name, other length: independent registries accept both
+                ok = x is not y and type(x) is K1 and type(y) is K2 and len(y) == 7
+            elif kind == 'cplx':
+                x = K1([da, db, '+', da], list('(.+)'), name='X'); y = K2([db], list('.'), name='X')
+                ok = x is not y and type(x) is K1 and type(y) is K2 and y.size == 1
+            else:
+                x = K1([da, db], name='S'); y = K2([db], name='S')
+                ok = x is not y and type(x) is K1 and type(y) is K2
+            if not ok or K1._instanceNames is K2._instanceNames or len(K1._instanceNames) != 1 or len(K2._instanceNames) != 1:
+                res.violation('same-name-sibling-classes-share-registry:' + kind, desc, 'objects alias or registries shared', 'independent registries')
+            del x, y
+        except _SE as e:
+            res.violation('same-name-sibling-classes-share-registry:' + kind, desc, 'SingletonError: an object of the sibling blocks the request', 'independent registries')
+            e = None
+        del da, db
+        res.count('same_name_sibling_scenarios')
     # ---- 2. reader slots: all 32 assignments
     import dsdobjects
     from dsdobjects import objectio, base_classes as bc, clear_singletons
